@@ -179,6 +179,8 @@ func main() {
 		// shortener (current point, control points) that survived from another document shows in the output
 		{"image/svg+xml", "svg-nomove-c", []byte(`<svg xmlns="http://www.w3.org/2000/svg"><path d="C-2-2 4 4 5 5"/><path d="Q-3 -3 4 4"/><path d="T4 4"/><path d="S1 1 2 2"/></svg>`)},
 		{"image/svg+xml", "svg-curves", []byte(`<svg xmlns="http://www.w3.org/2000/svg"><path d="M0 0C1 1 2 2 3 3S4 4 5 5Q6 6 7 7T8 8"/><path d="M10 10c1 1 2 2 3 3"/></svg>`)},
+		{"image/svg+xml", "svg-curve-to-origin", []byte(`<svg xmlns="http://www.w3.org/2000/svg"><path d="M0 0C1 1 2 2 0 0"/></svg>`)}, // ends at (0,0) with control point (2,2): its reflection is the first control point of svg-nomove-c
+		{"image/svg+xml", "svg-quad-to-origin", []byte(`<svg xmlns="http://www.w3.org/2000/svg"><path d="M0 0Q3 3 0 0"/></svg>`)},
 		{"image/svg+xml", "svg-nomove-l", []byte(`<svg xmlns="http://www.w3.org/2000/svg"><path d="l1 1h2v2"/><path d="t1 1"/><path d="s1 1 2 2"/></svg>`)},
 		{"text/html", "bad-js", []byte(`<script>{</script><p>x`)},
 		{"text/unknown", "unknown", []byte(`whatever`)},
